@@ -59,6 +59,7 @@ err_t beltKWPUnwrap(octet dest[], const octet src[], size_t count,
 	const octet header[16], const octet key[], size_t len)
 {
 	void* state;
+	octet* header1;
 	octet* header2;
 	// проверить входные данные
 	if (count < 32 ||
@@ -69,17 +70,21 @@ err_t beltKWPUnwrap(octet dest[], const octet src[], size_t count,
 		!memIsValid(dest, count - 16))
 		return ERR_BAD_INPUT;
 	// создать состояние
-	state = blobCreate(beltKWP_keep() + 16);
+	state = blobCreate(beltKWP_keep() + 32);
 	if (state == 0)
 		return ERR_OUTOFMEMORY;
 	header2 = (octet*)state + beltKWP_keep();
+	header1 = header2 + 16;
 	// снять защиту
 	beltKWPStart(state, key, len);
+	if (header)
+		memCopy(header1, header, 16);
+	else
+		memSetZero(header1, 16);
 	memCopy(header2, src + count - 16, 16);
 	memMove(dest, src, count - 16);
 	beltKWPStepD2(dest, header2, count, state);
-	if (header && !memEq(header, header2, 16) ||
-		header == 0 && !memIsZero(header2, 16))
+	if (!memEq(header1, header2, 16))
 	{
 		memSetZero(dest, count - 16);
 		blobClose(state);
